@@ -22,6 +22,13 @@ pub struct Case {
 	/// answers cut in the middle of the body (complete headers, fresh Replay-Nonce included): the k-th transmission at a position, on every endpoint
 	#[serde(default)]
 	pub cuts: Vec<(Pos, usize)>,
+	/// every account has an external account binding (HS256)
+	#[serde(default)]
+	pub eab: bool,
+	/// (scenario "first" only) the accounts directory is removed as soon as the daemon has created the account files: the registrations
+	/// cannot be stored, which must not make them happen twice
+	#[serde(default)]
+	pub accounts_dir_gone: bool,
 }
 
 fn strategy() -> impl Strategy<Value = Case> {
@@ -32,13 +39,13 @@ fn strategy() -> impl Strategy<Value = Case> {
 		proptest::collection::vec((0usize..3, 0usize..3), 8),
 		proptest::collection::vec(prop_oneof![2 => Just(0u64), 3 => 0u64..40], 1..9),
 		proptest::sample::select(vec![1usize, 2, 4, 16]),
-		prop_oneof![3 => Just("first"), 2 => Just("forgot"), 1 => Just("pending-contacts"), 1 => Just("pending-key"), 1 => Just("pending-both")],
+		prop_oneof![3 => Just("first"), 2 => Just("forgot"), 1 => Just("pending-contacts"), 1 => Just("pending-key"), 1 => Just("pending-both"), 2 => Just("restart-unchanged")],
 		any::<bool>(),
-		prop_oneof![2 => Just(vec![]), 1 => proptest::collection::vec((proptest::sample::select(vec![Pos::NewOrder, Pos::Authz(0), Pos::Chall(0), Pos::AuthzPoll(0), Pos::Finalize, Pos::Cert]), 1usize..=3), 1..=2)],
+		(prop_oneof![2 => Just(vec![]), 1 => proptest::collection::vec((proptest::sample::select(vec![Pos::NewOrder, Pos::Authz(0), Pos::Chall(0), Pos::AuthzPoll(0), Pos::Finalize, Pos::Cert]), 1usize..=3), 1..=2)], prop_oneof![2 => Just(false), 1 => Just(true)], prop_oneof![2 => Just(false), 1 => Just(true)]),
 	)
-		.prop_map(|(n, na, ne, raw, delays_ms, threads, scenario, nonce_on_get, cuts)| {
+		.prop_map(|(n, na, ne, raw, delays_ms, threads, scenario, nonce_on_get, (cuts, eab, gone))| {
 			let assign = raw.iter().take(n).map(|(a, e)| (a % na, e % ne)).collect();
-			Case { assign, delays_ms, threads, scenario: scenario.to_string(), nonce_on_get, cuts }
+			Case { assign, delays_ms, threads, scenario: scenario.to_string(), nonce_on_get, cuts, eab, accounts_dir_gone: gone && scenario == "first" }
 		})
 }
 
@@ -54,17 +61,24 @@ fn run_once(case: &Case) -> Result<Result<Vec<String>, (String, String)>, String
 	let n = case.assign.len();
 	let n_ep = case.assign.iter().map(|a| a.1).max().unwrap() + 1;
 	let n_acc = case.assign.iter().map(|a| a.0).max().unwrap() + 1;
+	let eab = crate::mockca::Eab { kid: "kid-c12".into(), key: b"c12-0123456789abcdef0123456789ab".to_vec(), alg: "HS256".into() };
 	let mut cas = vec![];
 	for e in 0..n_ep {
 		let map = (0..n).filter(|i| case.assign[*i].1 == e).map(|i| (bb::ident_key(&[("dns".to_string(), format!("k{i}.c12.test"))]), format!("c{i}"))).collect();
 		let faults = case.cuts.iter().map(|(p, k)| Fault { pos: p.clone(), nth: *k, repeat: 1, action: Action::DropMidResponse, cert: None }).collect();
-		cas.push(MockCa::start(CaPlan { faults, delays_ms: case.delays_ms.clone(), nonce_on_get: case.nonce_on_get, seed: 11 + e as u64, ..CaPlan::default() }, map)?);
+		cas.push(MockCa::start(CaPlan { faults, delays_ms: case.delays_ms.clone(), nonce_on_get: case.nonce_on_get, seed: 11 + e as u64, eab: if case.eab { Some(eab.clone()) } else { None }, eab_required: case.eab, ..CaPlan::default() }, map)?);
 	}
 	let mk_cfg = |contacts: &str, key: &str| {
 		json!({
 			"global": lay.global(),
 			"endpoint": (0..n_ep).map(|e| json!({"name": format!("e{e}"), "url": cas[e].directory_url(), "tos_agreed": true})).collect::<Vec<_>>(),
-			"account": (0..n_acc).map(|a| json!({"name": format!("a{a}"), "key_type": key, "contacts": [{"mailto": format!("{contacts}{a}@c12.test")}]})).collect::<Vec<_>>(),
+			"account": (0..n_acc).map(|a| {
+				let mut acc = json!({"name": format!("a{a}"), "key_type": key, "contacts": [{"mailto": format!("{contacts}{a}@c12.test")}]});
+				if case.eab {
+					acc["external_account"] = json!({"identifier": eab.kid, "key": crate::oracle::jwk::b64u(&eab.key), "signature_algorithm": "HS256"});
+				}
+				acc
+			}).collect::<Vec<_>>(),
 			"hook": bb::std_hooks(&coll.sock),
 			"certificate": (0..n).map(|i| json!({"name": format!("c{i}"), "account": format!("a{}", case.assign[i].0), "endpoint": format!("e{}", case.assign[i].1), "key_type": "ecdsa-p256",
 				"hooks": ["rec-http-01", "rec-http-01-clean", "rec-post"], "env": {bb::CERT_ENV: format!("c{i}")},
@@ -80,6 +94,17 @@ fn run_once(case: &Case) -> Result<Result<Vec<String>, (String, String)>, String
 		let mut opts = bb::daemon_opts(&acmed, &dir, &cfg_path, &format!("run{run_no}"));
 		opts.env.push(("TOKIO_WORKER_THREADS".into(), case.threads.to_string()));
 		let mut daemon = Daemon::spawn(&opts)?;
+		if case.accounts_dir_gone && run_no == 1 {
+			// the account files are written when the configuration is loaded, before the first request (the CA's answers are delayed)
+			let t0 = std::time::Instant::now();
+			while t0.elapsed() < Duration::from_secs(5) {
+				if std::fs::read_dir(&lay.accounts).map(|rd| rd.flatten().filter(|e| e.file_name().to_string_lossy().ends_with(".bin")).count()).unwrap_or(0) >= n_acc {
+					break;
+				}
+				std::thread::sleep(Duration::from_millis(1));
+			}
+			let _ = std::fs::remove_dir_all(&lay.accounts);
+		}
 		// a successful post-operation record ends that certificate's part; a failed one (answer cut by the CA) is let through and the renewal is repeated
 		coll.hold_when(Box::new(|r, _| post_ok(r)));
 		let ok = coll.wait_until(&|r| r.iter().filter(|x| post_ok(x)).count() >= want_total, Duration::from_secs(60), &mut || daemon.state() != ProcState::Alive);
@@ -99,7 +124,8 @@ fn run_once(case: &Case) -> Result<Result<Vec<String>, (String, String)>, String
 			return Ok(Err(("C12:renewal-stalled".into(), format!("{} of {want_total} renewals ended within 60 s (typical 1 s); last request {idle_s:.1} s ago; ended: {done:?}; {d}\n{tail}", done.len()))));
 		}
 		let failed: Vec<_> = recs.iter().filter(|r| bb::is_post(r) && !post_ok(r)).collect();
-		if failed.len() > case.cuts.len() * n_ep {
+		// a registration that cannot be stored fails the attempt that made it (once per account and endpoint)
+		if failed.len() > case.cuts.len() * n_ep + if case.accounts_dir_gone { pairs.len() } else { 0 } {
 			let r = failed[0];
 			return Ok(Err(("C12:renewal-failed".into(), format!("{}: {:?}; {d}\n{tail}", r.hook_id, r.arg("status")))));
 		}
@@ -134,6 +160,7 @@ fn run_once(case: &Case) -> Result<Result<Vec<String>, (String, String)>, String
 			}
 			"pending-contacts" => ("second", "ecdsa-p256"),
 			"pending-key" => ("first", "ecdsa-p384"),
+			"restart-unchanged" => ("first", "ecdsa-p256"),
 			_ => ("second", "ecdsa-p384"),
 		};
 		if let Err(e) = do_run(mk_cfg(contacts, key), 2 * n)? {
@@ -147,6 +174,7 @@ fn run_once(case: &Case) -> Result<Result<Vec<String>, (String, String)>, String
 				"forgot" => (*want, 0, 0),
 				"pending-contacts" => (0, 0, *want),
 				"pending-key" => (0, *want, 0),
+				"restart-unchanged" => (0, 0, 0),
 				_ => (0, *want, *want),
 			};
 			if (got_new, got_key, got_ct) != (w_new, w_key, w_ct) {
@@ -177,6 +205,12 @@ fn run_once(case: &Case) -> Result<Result<Vec<String>, (String, String)>, String
 	if !case.cuts.is_empty() {
 		classes.push(format!("answers-cut={}", case.cuts.len()));
 	}
+	if case.eab {
+		classes.push("external-account-binding".into());
+	}
+	if case.accounts_dir_gone {
+		classes.push("accounts-directory-gone".into());
+	}
 	Ok(Ok(classes))
 }
 
@@ -201,7 +235,7 @@ fn exec(case: &Case) -> Outcome {
 }
 
 pub fn run(ctx: &Ctx, rep: &mut Report) {
-	rep.rule = "2..8 certificates over 1..3 accounts and 1..3 endpoints in random sharing patterns, per-response delays 0..40 ms from the seeded plan, TOKIO_WORKER_THREADS in {1,2,4,16}, CAs with/without nonces on GET; scenario: concurrent first registration alone, or followed by a second run in which all certificates renew at once after the CA forgot the accounts / the contacts / the key type / both were edited (the paths that take the account write lock); in a third of the cases 1..2 answers to POSTs are cut in the middle of the body after complete headers (the renewal hit fails and is repeated; the nonce chain of the shared endpoint must stay fresh). Oracle: every certificate reaches its post-operation record (60 s watchdog vs ~1 s typical, a hit is re-run once), every renewal succeeds, newAccount / key-change / contact-update counts per (account, endpoint) are exactly the model's, the CA's nonce ledger shows no unknown or re-used nonce (in particular none consumed by two certificates). Non-trivial = >= 2 certificates share an account and an endpoint.".into();
+	rep.rule = "2..8 certificates over 1..3 accounts and 1..3 endpoints in random sharing patterns, per-response delays 0..40 ms from the seeded plan, TOKIO_WORKER_THREADS in {1,2,4,16}, CAs with/without nonces on GET; scenario: concurrent first registration alone, or followed by a second run in which all certificates renew at once after the CA forgot the accounts / the contacts / the key type / both were edited (the paths that take the account write lock), or nothing was edited at all (no account request expected); a third of the cases use accounts with an external account binding; in a third of the first-registration cases the accounts directory is removed right after start-up, so that no registration can be stored (each must still happen once); in a third of the cases 1..2 answers to POSTs are cut in the middle of the body after complete headers (the renewal hit fails and is repeated; the nonce chain of the shared endpoint must stay fresh). Oracle: every certificate reaches its post-operation record (60 s watchdog vs ~1 s typical, a hit is re-run once), every renewal succeeds, newAccount / key-change / contact-update counts per (account, endpoint) are exactly the model's, the CA's nonce ledger shows no unknown or re-used nonce (in particular none consumed by two certificates). Non-trivial = >= 2 certificates share an account and an endpoint.".into();
 	rep.assume("the harness perturbs but does not own the schedule (tokio tasks interleave at await points, which the response delays move); a seed reproduces the plan, not necessarily the interleaving");
 	run_replays::<Case>(ctx, rep, "bb", &exec);
 	if ctx.replay.is_some() {
